@@ -43,6 +43,14 @@ def judge(exp, obs):
         if obs['gl'] != exp['gl']:
             return {'expected __LINE__/__FILE__': exp['gl'], 'implementation': obs['gl'] + ' res=' + obs['res']}
         return None
+    if exp['kind'] == 'ppwarn':
+        hits = [e for e in obs['entries'] if e[1] == exp['code']]
+        want = exp['positions'][0]
+        if not hits:
+            return {'expected': 'the preprocessor diagnostic %d' % exp['code'], 'implementation': str(obs['entries'])[:300] + ' res=' + obs['res']}
+        if hits[-1][2] != want[0] or not hits[-1][4].endswith(exp['file'].replace('/$R', '')):
+            return {'expected [L|file]': [want[0], exp['file']], 'implementation': [hits[-1][2], hits[-1][3], hits[-1][4]]}
+        return None
     hits = [e for e in obs['entries'] if e[1] == exp['code']]
     if not hits:
         return {'expected': 'a diagnostic %d' % exp['code'], 'implementation': str(obs['entries'])[:300] + ' res=' + obs['res']}
